@@ -81,7 +81,14 @@ def run_jobs(jobs, procs=None, budget=None):
                     out[i] = {'unit': _label(*jobs[i]), 'verdicts': [], 'ground': [], 'error': ('crash', f'worker died (exit {p.exitcode})')}
                 done.append(i)
             elif not p.is_alive():
-                out[i] = {'unit': _label(*jobs[i]), 'verdicts': [], 'ground': [], 'error': ('crash', f'worker died without a result (exit {p.exitcode}; memory cap?)')}
+                # the worker may have sent its result just before exiting: look once more before declaring it dead
+                if conn.poll(0.5):
+                    try:
+                        out[i] = conn.recv()
+                    except EOFError:
+                        out[i] = {'unit': _label(*jobs[i]), 'verdicts': [], 'ground': [], 'error': ('crash', f'worker died (exit {p.exitcode})')}
+                else:
+                    out[i] = {'unit': _label(*jobs[i]), 'verdicts': [], 'ground': [], 'error': ('crash', f'worker died without a result (exit {p.exitcode}; memory cap?)')}
                 done.append(i)
             elif time.time() - t0 > budget:
                 p.kill()
